@@ -2,6 +2,7 @@ package props
 
 import (
 	"fmt"
+	"math"
 
 	"github.com/sahandsafizadeh/qeep/tensor"
 
@@ -361,6 +362,14 @@ func shapesWithProduct(n, maxRank int) [][]int {
 
 func c06Simple(k *fw.K, in ref.Instr, shape []int, key string) {
 	x := Shuffled(k.Rng, Unique(k.Rng, shape, 0.1, 3))
+	if k.Index%4 == 0 { // zeros of either sign among the values: copying keeps the sign
+		for i := range x.Data {
+			if k.Rng.Intn(3) == 0 || len(x.Data) == 1 {
+				x.Data[i] = []float64{math.Copysign(0, -1), 0, math.Copysign(0, -1)}[k.Rng.Intn(3)]
+			}
+		}
+		k.Count("cases_with_signed_zeros", 1)
+	}
 	k.Case = fcase{In: in, Ops: []*ref.T{x}}
 	want, err := ref.Apply(in, []*ref.T{x})
 	if err != nil {
